@@ -118,6 +118,11 @@ func runC01(c *Ctx) {
 		// longer exhaustive strings over a reduced alphabet, small lattice only
 		enumStrings([]byte{'a', ' ', '\n', '`', '*', '[', ']', '(', '>', '-', '#', '<', '|', '\\', 0x80, '\t'}, o3, func(b []byte) { add(fmt.Sprintf("exhaustive16<=%d", o3), b) })
 	})
+	if c.Quick() {
+		parserModelCases(c, items, 6000)
+	} else {
+		parserModelCases(c, items, 60000)
+	}
 	nw := runtime.NumCPU()
 	mdFull := make([][]goldmark.Markdown, nw)
 	mdSmall := make([][]goldmark.Markdown, nw)
